@@ -69,6 +69,8 @@ def lattice_exports(chk, rng, n_pure, n_purif, nvmax, seed, budget=280):
             while q["nv"] != i + 1:
                 q = lattice.random_point(rng, nvmax=nvmax, nhmax=3, budget=budget)
             pts[i] = q
+    for i in range(max(1, n_pure // 5)):           # and the far corner (tiny unnormalised weights)
+        pts[-1 - i] = lattice.random_point(rng, nvmax=nvmax, nhmax=3, budget=budget, extreme=True)
     pf = lattice.PointsFile(pts)
     try:
         r1 = tlc.run("RBM", constants={"TMax": 640, "Lanes": 16}, defs={"Archs": "{}", "Vals": "{1}"},
@@ -80,6 +82,8 @@ def lattice_exports(chk, rng, n_pure, n_purif, nvmax, seed, budget=280):
     for i in range(min(nvmax, len(qts))):
         while qts[i]["nv"] != i + 1:
             qts[i] = lattice.random_purif_point(rng, nvmax=nvmax, nhmax=3, namax=3, budget=budget)
+    for i in range(max(1, n_purif // 5)):
+        qts[-1 - i] = lattice.random_purif_point(rng, nvmax=nvmax, nhmax=3, namax=3, budget=budget, extreme=True)
     pf = lattice.PointsFile(qts)
     try:
         r2 = tlc.run("PurifRBM", constants={"TMax": 640, "Lanes": 16}, defs={"Archs": "{}", "Vals": "{1}"},
